@@ -1793,6 +1793,18 @@ pub fn tls13_messages() -> Vec<W> {
     for nonce in [0usize, 1, 8] {
         for ticket in [1usize, 32, 300] {
             for eb in [&[][..], &[0x00, 0x2a, 0x00, 0x04, 0x00, 0x00, 0x40, 0x00]] {
+                for life in [0u32, 604800, 604801, 0x7fff_ffff, 0xffff_ffff] {
+                    if nonce == 8 && ticket == 32 {
+                        v.push(hs(4, |w| {
+                            w.u32(life).u32(1);
+                            w.block(1, "nonce_len", |w| fill(w, nonce, 1));
+                            w.block(2, "ticket_len", |w| fill(w, ticket, 0x70));
+                            w.block(2, "ext_len", |w| {
+                                w.bytes(eb);
+                            });
+                        }));
+                    }
+                }
                 v.push(hs(4, |w| {
                     w.u32(7200).u32(0xdead_beef);
                     w.block(1, "nonce_len", |w| fill(w, nonce, 1));
@@ -2335,5 +2347,22 @@ pub fn opaque_carriers(blob: &[u8]) -> Vec<W> {
             });
         });
     }));
+    v
+}
+
+
+/// ServerECDHParams over named group x point size (0..=70, 97, 133, 255) - the sizes the fixed-length curves imply
+/// (32, 56, 65, 97, 133) and everything around them; contents follow the fill style
+pub fn ecdh_grid() -> Vec<W> {
+    let mut v = Vec::new();
+    let groups: Vec<u16> = (0x0017..=0x001e).chain(0x0100..=0x0104).chain([0x0000, 0x0a0a, 0x11ec, 0xffff]).collect();
+    for &g in &groups {
+        for n in (0..=70usize).chain([97, 133, 255]) {
+            let mut w = W::new();
+            w.u8(3).u16(g);
+            w.block(1, "ec_point_len", |w| fill(w, n, 4));
+            v.push(w);
+        }
+    }
     v
 }
